@@ -137,6 +137,23 @@ where
     }
 }
 
+#[cfg(feature = "verif-hooks")]
+impl<R> AsyncDispatcher<'_, R> {
+    /// Executed shape and number of thread-local systems (verification hook).
+    /// Waits for a running dispatch first.
+    pub fn verif_shape(&mut self) -> (Vec<Vec<usize>>, usize) {
+        let shape = self
+            .data
+            .inner()
+            .stages
+            .iter()
+            .map(Stage::verif_group_sizes)
+            .collect();
+
+        (shape, self.thread_local.len())
+    }
+}
+
 enum Data<R> {
     Inner(Inner<R>),
     Rx(mpsc::Receiver<Inner<R>>),
